@@ -395,3 +395,7 @@ def install_kmeanspp_helpers(R):
             return old(E, a, axis=axis, **kw)
         return f
     R.fns["numpy.argmin"] = _argmin1(R.fns["numpy.argmin"])
+
+    # numpy.errstate(...) / warnings.catch_warnings(): context managers that only change how floating-point warnings are reported
+    R.fns["numpy.errstate"] = lambda E, *a, **k: None
+    R.fns["warnings.catch_warnings"] = lambda E, *a, **k: None
